@@ -235,7 +235,24 @@ def handle (j : Json) : Except String Json := do
     let yDrop := (net.dropBN S).eval rs x
     let yFold := (net.fold S mode).eval rs x
     let yUnf := (net.unfoldAll rs).bind fun n' => n'.eval rs x
+    -- `unfold_model` as the code's two passes over model.layers: clones with the fresh variables
+    -- "init" (default: none given = empty arrays), then `_clone_weights` for every pair; "trainable"
+    -- per node (default true)
+    let ls : List MLayer ← (nodes.zip ops).mapM fun (nd, op) => do
+      pure ({ op := op, trainable := (getBool nd "trainable").toOption.getD true } : MLayer)
+    let inits : List (List T) ← nodes.mapM fun nd => do
+      match nd.getObjVal? "init" with
+      | .ok (.arr a) => a.toList.mapM fun v => do
+          let l ← v.getArr?
+          l.toList.mapM ratOfJson
+      | _ => pure []
+    let ul := unfoldLayers rs (fun i => inits.getD i []) ls
+    let yUnfLayers := ul.bind fun ls' => (toNet g (opsOf ls') g.length out).eval rs x
+    let wJson (l : List MLayer) : Json := Json.arr (l.map fun m => Json.arr (m.op.weights.map rats).toArray).toArray
     pure <| Json.mkObj [
+      ("unf_weights", match ul with | none => Json.null | some l => wJson l),
+      ("unf_trainable", match ul with | none => Json.null | some l => Json.arr (l.map fun m => Json.bool m.trainable).toArray),
+      ("y_unf_layers", optRats yUnfLayers),
       ("sites", nats sites), ("bn_delete", nats (bnToDelete g)), ("kept", nats (keptLayers g)),
       ("qclass", nats ((List.range g.length).map (quantizedClass g (fun i => hasq.contains i)))),
       ("y0", optRats y0), ("y_drop", optRats yDrop), ("y_fold", optRats yFold), ("y_unf", optRats yUnf)]
